@@ -68,7 +68,7 @@ def plan(tier, seed):
 
 
 def mandatory(tier):
-    return [f"format/{f}" for f in FORMATS] + [f"dtype/{d}" for d in DTYPES] + ["D/2", "D/3", "C/1", "C/2", "C/3", "compress/True", "compress/False", "flow", "sitk_reads_deepali", "deepali_reads_sitk", "meta_bytes"]
+    return [f"format/{f}" for f in FORMATS] + [f"dtype/{d}" for d in DTYPES] + ["D/2", "D/3", "C/1", "C/2", "C/3", "compress/True", "compress/False", "flow", "sitk_reads_deepali", "deepali_reads_sitk", "meta_bytes", "header_text"]
 
 
 class KeyCtx:
@@ -150,6 +150,19 @@ def config_item(ctx, fmt, D, C, dtype, compress, rep):
         with ctx.guard("Image.write", key=f"exc/write/{kind}", **info):
             Image(data, g).write(path, compress=compress)
             wrote = os.path.exists(path)
+        if wrote and fmt in (".mha", ".mhd"):
+            # the text header itself: every float32 grid attribute is stored with all its digits (a shorter decimal
+            # form moves the grid by up to 5e-6 of its offset, below the tolerance of the float32 geometry checks)
+            with ctx.guard("MetaImage header text", key=f"exc/header_text/{fmt}", **info):
+                raw = open(path, "rb").read()
+                head = raw.split(b"ElementDataFile")[0].decode("ascii", "replace")
+                fields = {ln.split("=")[0].strip(): ln.split("=", 1)[1].split() for ln in head.splitlines() if "=" in ln}
+                off = fields.get("Offset") or fields.get("Origin") or fields.get("Position")
+                ctx.bucket("header_text")
+                if ctx.true("header_has_offset_and_spacing", off is not None and "ElementSpacing" in fields, key=f"header_text/{fmt}/fields", fields=sorted(fields), **info):
+                    want_o, want_s = g.origin().double().numpy(), g.spacing().double().numpy()
+                    ctx.close("header_text_offset_has_all_digits", np.array([float(x) for x in off]), want_o, 1.5e-7 * np.abs(want_o) + 1e-30, key=f"header_text/{fmt}/offset", text=off, **info)
+                    ctx.close("header_text_spacing_has_all_digits", np.array([float(x) for x in fields["ElementSpacing"]]), want_s, 1.5e-7 * np.abs(want_s), key=f"header_text/{fmt}/spacing", text=fields["ElementSpacing"], **info)
         if wrote:
             with ctx.guard("Image.read", key=f"exc/read_own/{kind}", **info):
                 im = Image.read(path)
